@@ -161,8 +161,12 @@ class Source:
         container: None = depth-0 of file or any module (not inside impl/fn);
         else a string matched against impl headers (see _impl_matches)."""
         hits = []
-        nested = container == "@nested"      # a fn item declared inside another function's body: any depth, the name must be unique in the file
-        for (a, z) in ([(0, len(self.text))] if nested else self._range_for_container(container)):
+        nested = isinstance(container, str) and container.startswith("@nested")      # a fn item declared inside another function's body: any depth, the name must be unique in the file
+        nested_range = [(0, len(self.text))]
+        if nested and ":" in container:      # "@nested:<outer>": .. unique inside the body of the top-level function <outer>
+            so, bo, eo = self.find_fn(container.split(":", 1)[1], None)
+            nested_range = [(bo + 1, eo)]
+        for (a, z) in (nested_range if nested else self._range_for_container(container)):
             for mt in re.finditer(r"(?<![A-Za-z0-9_])fn\s+" + re.escape(name) + r"\b", self.m[a:z]):
                 i = a + mt.start()
                 if not nested and self._depth_rel(a, i) != 0:
